@@ -5,24 +5,6 @@
 use libfuzzer_sys::fuzz_target;
 use vmodel::dec::D;
 
-fn oracle(tr: &str, di: &syn::DeriveInput) {
-    use darling_core::derive as d;
-    let out = match tr {
-        "FromMeta" => d::from_meta(di),
-        "FromDeriveInput" => d::from_derive_input(di),
-        "FromField" => d::from_field(di),
-        "FromVariant" => d::from_variant(di),
-        "FromTypeParam" => d::from_type_param(di),
-        _ => d::from_attributes(di),
-    };
-    let errors = vmodel::util::compile_errors(out.clone()).len();
-    let file: syn::File = syn::parse2(out.clone()).unwrap_or_else(|e| panic!("C06 output is not items: {} :: {}", e, out));
-    let impls = file.items.iter().filter(|i| matches!(i, syn::Item::Impl(_))).count();
-    assert!(!(impls >= 1 && errors >= 1), "C06 both impl and diagnostics for {}", tr);
-    assert!(impls + errors >= 1, "C06 neither impl nor diagnostics for {}", tr);
-    assert!(impls <= 1, "C06 several impls for {}", tr);
-}
-
 fuzz_target!(|data: &[u8]| {
     proc_macro2::extra::invalidate_current_thread_spans();
     let src = if data.first() == Some(&0xff) {
@@ -40,13 +22,14 @@ fuzz_target!(|data: &[u8]| {
         Err(_) => return,
     };
     for tr in ["FromMeta", "FromDeriveInput", "FromField", "FromVariant", "FromTypeParam", "FromAttributes"] {
-        // (vmodel's catch replaces libFuzzer's abort-on-panic hook, so that the one known finding can be told
-        // from every other panic: string slicing inside the ident_case dependency under a case rule)
-        if let Err(msg) = vmodel::util::catch(|| oracle(tr, &di)) {
-            if msg.contains("/ident_case-") && msg.contains("/src/lib.rs") {
+        // the oracle of the proptest step (`vchecks::c06::check_one`: derive under catch_unwind, exactly one impl XOR
+        // diagnostics), so that the two tiers cannot drift apart; the one known finding is told from every other
+        // panic by its signature (string slicing inside the ident_case dependency for a name that needs the case rule)
+        if let Err(f) = vchecks::c06::check_one(tr, &di, src.len()) {
+            if f.sig == "c06:panic:string-slice-in-ident_case@rename-rule" {
                 continue;
             }
-            panic!("C06 derive({}) panicked on `{}`: {}", tr, src, msg);
+            panic!("C06 {} for derive({}) on `{}`: {}", f.sig, tr, src, f.msg);
         }
     }
 });
